@@ -17,7 +17,12 @@
 //
 //	reset
 //	burst p=<producer goroutines> post=<n> tmr=<n> rep=<n> lev=<n> gev=<n> req=<n> raw=<n> ntf=<n>
-//	      tmo=<0|1> sfl=<n> ses=<n> msg=<n> dw=<sleep|yield|spin|mix>
+//	      tmo=<0|1> sfl=<n> ses=<n> msg=<n> slow=<n> z=<n> sib=<n> dw=<sleep|yield|spin|mix>
+//
+// slow = notifies whose handler outlasts the mailbox's 20 ms frame budget, each with three more notifies
+// queued behind it (smoothing pause, helper goroutine); z = timers armed with zero / negative delay, from
+// the service and from a foreign goroutine; sib = how many of the 12 sibling actors that share A's
+// dispatcher get a notify while A's goroutine is kept busy (more than its 9-slot channel holds).
 //
 // Observation: `ok A:<kind>=<count>/<gids>/<maxinflight>,… B:…` with the kinds in
 // a fixed order, zero counts omitted; <gids> = the distinct goroutines the kind
@@ -43,6 +48,7 @@ import (
 
 	"github.com/asynkron/protoactor-go/actor"
 
+	"github.com/dfklegend/cell2/actorex/mailbox"
 	as "github.com/dfklegend/cell2/actorex/service"
 	messages "github.com/dfklegend/cell2/actorex/service/servicemsgs"
 	api "github.com/dfklegend/cell2/apimapper"
@@ -60,7 +66,7 @@ import (
 
 // ---------------------------------------------------------------- monitor
 
-var kindOrder = []string{"post", "tmr", "lev", "gev", "req", "mute", "raw", "ntf", "rsp", "tmo", "sfl", "sadd", "smsg", "srem"}
+var kindOrder = []string{"post", "tmr", "tz", "lev", "gev", "req", "mute", "raw", "ntf", "slow", "sib", "rsp", "tmo", "sfl", "sadd", "smsg", "srem"}
 
 type kstat struct {
 	n     int
@@ -75,6 +81,7 @@ type mon struct {
 	mu     sync.Mutex
 	canon  map[uint64]int
 	inside map[uint64]int
+	total  int // pieces of service code in progress, on whatever goroutine (a nested piece counts)
 	stats  map[string]*kstat
 	dwell  string
 	tick   uint64
@@ -107,7 +114,15 @@ func (m *mon) enter(kind string) func() {
 		m.canon[g] = c
 	}
 	m.inside[g]++
-	in := len(m.inside)
+	// `sfl` (the callback of a request that could not be serialised) is called synchronously inside
+	// Request by design; every other kind is a piece of its own and must not start inside another
+	if kind != "sfl" {
+		m.total++
+	}
+	in := m.total
+	if len(m.inside) > in {
+		in = len(m.inside)
+	}
 	st := m.stats[kind]
 	if st == nil {
 		st = &kstat{}
@@ -163,6 +178,9 @@ func (m *mon) enter(kind string) func() {
 		m.mu.Lock()
 		if m.inside[g]--; m.inside[g] <= 0 {
 			delete(m.inside, g)
+		}
+		if kind != "sfl" {
+			m.total--
 		}
 		m.mu.Unlock()
 	}
@@ -258,6 +276,24 @@ func (e *Entry) Note(ctx *as.RemoteContext, msg *messages.TestHello) error {
 	return nil
 }
 
+// Slow: a handler that takes longer (25 ms, virtual) than the mailbox's 20 ms frame budget, so that the
+// mailbox ends the frame and starts a smoothing pause (helper goroutine, 1 ms) with the backlog queued
+func (e *Entry) Slow(ctx *as.RemoteContext, msg *messages.TestHello) error {
+	s := svcOf(ctx)
+	defer s.m.enter("slow")()
+	time.Sleep(25 * time.Millisecond)
+	return nil
+}
+
+// Sib: notify handled by a sibling actor that shares the service's dispatcher / run service
+func (e *Entry) Sib(ctx *as.RemoteContext, msg *messages.TestHello) error {
+	s := svcOf(ctx)
+	defer s.m.enter("sib")()
+	return nil
+}
+
+var pauses int64 // smoothing pauses started (mailbox hook point "hp.sleep", build tag verif)
+
 var regOnce sync.Once
 
 func register() {
@@ -265,6 +301,11 @@ func register() {
 		registry.Registry.AddCollection("c04.remote").
 			Register(&Entry{}, apientry.WithGroupName("c04"), apientry.WithNameFunc(strings.ToLower))
 		registry.Registry.Build()
+		mailbox.VerifYield = func(point string) {
+			if point == "hp.sleep" {
+				atomic.AddInt64(&pauses, 1)
+			}
+		}
 	})
 }
 
@@ -293,34 +334,50 @@ type world struct {
 	a, b  *hsvc
 	pa    *actor.PID
 	pb    *actor.PID
+	sibs  []*actor.PID // 12 more actors spawned from A's props: same dispatcher, same run service
 	lev   string
 	gev   string
 }
 
-func (w *world) spawn(tag string) (*hsvc, *actor.PID) {
+const nSibs = 12
+
+func (w *world) spawn(tag string, nsib int) (*hsvc, *actor.PID, []*actor.PID) {
 	name := fmt.Sprintf("c04%s%d", tag, w.nCase)
 	var s *hsvc
+	m := newMon()
+	m.label, m.early = strings.ToUpper(tag), w.early
 	props, _ := ns.NewServiceWithDispatcher(func() actor.Actor {
-		s = &hsvc{NodeService: ns.NewService(), m: newMon(), tag: tag}
-		s.m.label, s.m.early = strings.ToUpper(tag), w.early
-		s.Service.InitReqReceiver(s)
-		return s
+		x := &hsvc{NodeService: ns.NewService(), m: m, tag: tag}
+		x.Service.InitReqReceiver(x)
+		if s == nil {
+			s = x
+		}
+		return x
 	}, name, "c04.remote")
 	pid, err := w.sys.Root.SpawnNamed(props, name)
 	if err != nil {
 		panic(err)
 	}
 	synctest.Wait()
+	var sibs []*actor.PID
+	for i := 0; i < nsib; i++ {
+		p, err := w.sys.Root.SpawnNamed(props, fmt.Sprintf("%ss%d", name, i))
+		if err != nil {
+			panic(err)
+		}
+		sibs = append(sibs, p)
+	}
+	synctest.Wait()
 	s.sessions = impls.NewClientSessions(name)
 	s.sessions.SetHandler(s)
 	s.simpl = pomelo.NewSessionsImpl(s.GetRunService().GetScheduler(), s.sessions)
-	return s, pid
+	return s, pid, sibs
 }
 
 func (w *world) reset() string {
 	w.nCase++
-	w.a, w.pa = w.spawn("a")
-	w.b, w.pb = w.spawn("b")
+	w.a, w.pa, w.sibs = w.spawn("a", nSibs)
+	w.b, w.pb, _ = w.spawn("b", 0)
 	w.a.peer, w.b.peer = w.pb, w.pa
 	w.lev = fmt.Sprintf("c04.lev%d", w.nCase)
 	w.gev = fmt.Sprintf("c04.gev%d", w.nCase)
@@ -342,14 +399,15 @@ func (w *world) reset() string {
 }
 
 type burst struct {
-	p, post, tmr, rep, lev, gev, req, raw, ntf, tmo, sfl, ses, msg int
-	dw                                                             string
+	p, post, tmr, rep, lev, gev, req, raw, ntf, tmo, sfl, ses, msg, slow, z, sib int
+	dw                                                                           string
 }
 
 func parseBurst(ws []string) (burst, bool) {
 	var b burst
 	fields := map[string]*int{"p": &b.p, "post": &b.post, "tmr": &b.tmr, "rep": &b.rep, "lev": &b.lev, "gev": &b.gev,
-		"req": &b.req, "raw": &b.raw, "ntf": &b.ntf, "tmo": &b.tmo, "sfl": &b.sfl, "ses": &b.ses, "msg": &b.msg}
+		"req": &b.req, "raw": &b.raw, "ntf": &b.ntf, "tmo": &b.tmo, "sfl": &b.sfl, "ses": &b.ses, "msg": &b.msg,
+		"slow": &b.slow, "z": &b.z, "sib": &b.sib}
 	for k, ptr := range fields {
 		v, ok := hx.KV(ws, k)
 		if !ok {
@@ -367,7 +425,7 @@ func parseBurst(ws []string) (burst, bool) {
 	default:
 		return b, false
 	}
-	if b.p < 1 || b.p > 16 || b.tmo > 1 || b.ses > 40 || b.msg > 40 {
+	if b.p < 1 || b.p > 16 || b.tmo > 1 || b.ses > 40 || b.msg > 40 || b.slow > 10 || b.sib > nSibs {
 		return b, false
 	}
 	return b, true
@@ -396,10 +454,14 @@ func (w *world) burst(b burst) string {
 		// posted closures from p concurrent posters
 		fanout(b.p, b.post, func(j int) { s.Post(func() { defer s.m.enter("post")() }) })
 		// timers: armed from the service (one posted closure), fired by runtime timer goroutines
-		if b.tmr+b.rep > 0 {
+		if b.tmr+b.rep+b.z > 0 {
 			s.Post(func() {
 				defer s.m.enter("post")()
 				tm := s.GetRunService().GetTimerMgr()
+				// "next tick" and already-overdue timers armed by service code: still pieces of their own
+				for j := 0; j < b.z; j++ {
+					tm.After(-time.Duration(j%2)*time.Millisecond, func(args ...interface{}) { defer s.m.enter("tz")() })
+				}
 				for j := 0; j < b.tmr; j++ {
 					tm.After(time.Duration(j%7)*time.Millisecond, func(args ...interface{}) { defer s.m.enter("tmr")() })
 				}
@@ -416,6 +478,10 @@ func (w *world) burst(b burst) string {
 				}
 			})
 		}
+		// zero / negative delays armed from a foreign goroutine
+		fanout(1, b.z, func(j int) {
+			s.GetRunService().GetTimerMgr().After(-time.Duration(j%3)*time.Millisecond, func(args ...interface{}) { defer s.m.enter("tz")() })
+		})
 		// local events: published from p goroutines through the centre's channel
 		fanout(b.p, b.lev, func(j int) { s.GetRunService().GetEventCenter().Publish(w.lev, j) })
 		// notifies from outside any service
@@ -424,6 +490,13 @@ func (w *world) burst(b burst) string {
 			pid = w.pb
 		}
 		fanout(2, b.ntf, func(j int) { as.DirectSendNotify(w.sys.Root, pid, "c04.note", &messages.TestHello{I: int32(j)}) })
+		// frames longer than the mailbox budget with a backlog behind them → smoothing pauses
+		fanout(1, b.slow, func(j int) {
+			as.DirectSendNotify(w.sys.Root, pid, "c04.slow", &messages.TestHello{I: int32(j)})
+			for k := 0; k < 3; k++ {
+				as.DirectSendNotify(w.sys.Root, pid, "c04.note", &messages.TestHello{I: int32(k)})
+			}
+		})
 		// requests issued by this service towards its peer (from its own goroutine, as required)
 		if b.req+b.raw+b.tmo+b.sfl > 0 {
 			s.Post(func() {
@@ -456,6 +529,19 @@ func (w *world) burst(b burst) string {
 			})
 		}
 	}
+	// more mailbox runs pending on A's dispatcher than its 9-slot channel holds, while A's goroutine is busy:
+	// the blocker (a posted closure) starts the sender and stays inside the service until everything else is blocked
+	if b.sib > 0 {
+		w.a.Post(func() {
+			defer w.a.m.enter("post")()
+			go func() {
+				for i := 0; i < b.sib; i++ {
+					as.DirectSendNotify(w.sys.Root, w.sibs[i], "c04.sib", &messages.TestHello{I: int32(i)})
+				}
+			}()
+			time.Sleep(time.Millisecond)
+		})
+	}
 	// global events: one publisher, both services are subscribed
 	fanout(1, b.gev, func(j int) { event.GetGlobalEC().Publish(w.gev, j) })
 	// client connections of front-end A: one network goroutine per connection
@@ -475,7 +561,7 @@ func (w *world) burst(b burst) string {
 	}
 	synctest.Wait()
 	// let the timers fire (at most 6 ms one-shot, rep × (1 ms + queueing delay) repeating)
-	time.Sleep(time.Duration(20+3*b.rep) * time.Millisecond)
+	time.Sleep(time.Duration(20+3*b.rep+40*b.slow) * time.Millisecond)
 	synctest.Wait()
 	if b.tmo > 0 {
 		time.Sleep(33 * time.Second) // request timeout 30 s + the 1 s expiry scan
@@ -497,7 +583,7 @@ func (w *world) exec(op string) string {
 		return w.reset()
 	case "burst":
 		b, ok := parseBurst(ws[1:])
-		if !ok || w.a == nil || len(ws) != 15 {
+		if !ok || w.a == nil || len(ws) != 18 {
 			return "bad-op"
 		}
 		return w.burst(b)
@@ -547,19 +633,44 @@ func genBurst(h *hx.T) string {
 		h.Count("burst.timer-race")
 		b = burst{post: 50 + r.Intn(100), tmr: 50 + r.Intn(100), rep: 1 + r.Intn(10), lev: 20 + r.Intn(50), gev: r.Intn(30)}
 	}
+	// frames over the mailbox budget (smoothing pauses), zero / negative timer delays, siblings on one dispatcher
+	if r.Intn(10) < 3 {
+		b.slow = 1 + r.Intn(3)
+		h.Count("burst.with-slow-frames")
+	}
+	if r.Intn(10) < 4 {
+		b.z = 1 + r.Intn(20)
+		h.Count("burst.with-zero-delay-timers")
+	}
+	switch y := r.Intn(12); {
+	case y < 2:
+		b.sib = nSibs
+		h.Count("burst.siblings>9")
+	case y == 2:
+		b.sib = 11
+		h.Count("burst.siblings>9")
+	case y == 3:
+		b.sib = 1 + r.Intn(9)
+		h.Count("burst.siblings<=9")
+	}
 	if b.tmo > 0 {
 		h.Count("burst.with-timeout")
 	}
 	h.Count("dwell." + dw)
-	return fmt.Sprintf("burst p=%d post=%d tmr=%d rep=%d lev=%d gev=%d req=%d raw=%d ntf=%d tmo=%d sfl=%d ses=%d msg=%d dw=%s",
-		p, b.post, b.tmr, b.rep, b.lev, b.gev, b.req, b.raw, b.ntf, b.tmo, b.sfl, b.ses, b.msg, dw)
+	return fmt.Sprintf("burst p=%d post=%d tmr=%d rep=%d lev=%d gev=%d req=%d raw=%d ntf=%d tmo=%d sfl=%d ses=%d msg=%d slow=%d z=%d sib=%d dw=%s",
+		p, b.post, b.tmr, b.rep, b.lev, b.gev, b.req, b.raw, b.ntf, b.tmo, b.sfl, b.ses, b.msg, b.slow, b.z, b.sib, dw)
 }
 
-var malformed = []string{"burst", "burst p=0 post=1 tmr=0 rep=0 lev=0 gev=0 req=0 raw=0 ntf=0 tmo=0 sfl=0 ses=0 msg=0 dw=spin",
-	"burst p=2 post=x tmr=0 rep=0 lev=0 gev=0 req=0 raw=0 ntf=0 tmo=0 sfl=0 ses=0 msg=0 dw=spin",
-	"burst p=2 post=1 tmr=0 rep=0 lev=0 gev=0 req=0 raw=0 ntf=0 tmo=2 sfl=0 ses=0 msg=0 dw=spin",
-	"burst p=2 post=1 tmr=0 rep=0 lev=0 gev=0 req=0 raw=0 ntf=0 tmo=0 sfl=0 ses=0 msg=0 dw=nap",
-	"burst p=2 post=1", "reset now", "frobnicate", "burst p=2 post=401 tmr=0 rep=0 lev=0 gev=0 req=0 raw=0 ntf=0 tmo=0 sfl=0 ses=0 msg=0 dw=spin"}
+const z13 = "tmr=0 rep=0 lev=0 gev=0 req=0 raw=0 ntf=0"
+
+var malformed = []string{"burst", "burst p=0 post=1 " + z13 + " tmo=0 sfl=0 ses=0 msg=0 slow=0 z=0 sib=0 dw=spin",
+	"burst p=2 post=x " + z13 + " tmo=0 sfl=0 ses=0 msg=0 slow=0 z=0 sib=0 dw=spin",
+	"burst p=2 post=1 " + z13 + " tmo=2 sfl=0 ses=0 msg=0 slow=0 z=0 sib=0 dw=spin",
+	"burst p=2 post=1 " + z13 + " tmo=0 sfl=0 ses=0 msg=0 slow=0 z=0 sib=0 dw=nap",
+	"burst p=2 post=1 " + z13 + " tmo=0 sfl=0 ses=0 msg=0 slow=0 z=0 sib=13 dw=spin",
+	"burst p=2 post=1 " + z13 + " tmo=0 sfl=0 ses=0 msg=0 slow=11 z=0 sib=0 dw=spin",
+	"burst p=2 post=1 " + z13 + " tmo=0 sfl=0 ses=0 msg=0 dw=spin",
+	"burst p=2 post=1", "reset now", "frobnicate", "burst p=2 post=401 " + z13 + " tmo=0 sfl=0 ses=0 msg=0 slow=0 z=0 sib=0 dw=spin"}
 
 func TestRun(t *testing.T) {
 	synctest.Test(t, func(t *testing.T) {
@@ -578,7 +689,11 @@ func TestRun(t *testing.T) {
 			emitMu.Lock()
 			curOp = op
 			emitMu.Unlock()
+			p0 := atomic.LoadInt64(&pauses)
 			obs := w.exec(op)
+			for n := atomic.LoadInt64(&pauses) - p0; n > 0; n-- {
+				h.Count("seen.smoothing-pause")
+			}
 			emitMu.Lock()
 			h.Emit(op, obs)
 			h.Flush()
